@@ -38,9 +38,14 @@ func readBindings(b []byte) (out []c18Binding, parsed bool, nleases int) {
 	ints := func(v interface{}) string {
 		l, _ := v.([]interface{})
 		var bb []byte
-		for _, x := range l {
-			if n, ok := x.(int); ok {
+		for _, x := range l { // as a typed decoder fills a byte: null leaves 0, an integral float converts
+			switch n := x.(type) {
+			case int:
 				bb = append(bb, byte(n))
+			case float64:
+				bb = append(bb, byte(uint64(n)))
+			case nil:
+				bb = append(bb, 0)
 			}
 		}
 		return fmt.Sprintf("%x", bb)
@@ -289,7 +294,16 @@ func c18Faults(tb drv.TB, rec *drv.Rec, sub string, c c18Case) {
 		if outcome == "intact" && len(loaded) != len(orig) {
 			outcome = "subset"
 		}
-		_, parsed, nl := readBindings(damaged)
+		inFile, parsed, nl := readBindings(damaged)
+		if parsed { // whatever was loaded must be an entry of the file that was read (differential against the independent reader)
+			fileSet := bindingSet(inFile)
+			for _, b := range loaded {
+				if !fileSet[b] {
+					rec.Violation(tb, sub, "c18-invented-binding", fc, "%s at offset %d (value %#x): loaded %+v, which is not an entry of the damaged file as the independent reader sees it (%v); original %v", kind, off, val, b, inFile, orig)
+					return false
+				}
+			}
+		}
 		rec.Class("fault " + kind + " -> " + outcome)
 		if parsed && nl > 0 {
 			rec.NonTrivial(drv.HashBytes(damaged), func() interface{} {
@@ -338,8 +352,14 @@ func c18Faults(tb drv.TB, rec *drv.Rec, sub string, c c18Case) {
 		}
 		nval := drv.N(2, 16)
 		for k := 0; k < len(F); k++ {
-			for j := 0; j < nval; j++ {
+			for j := 0; j <= nval; j++ {
 				v := substValue(F[k], c.Seed, k, j)
+				if j == nval { // one more for the characters of a key: the key becomes an unknown field
+					if !inKey(F, k) {
+						continue
+					}
+					v = F[k] + 1
+				}
 				d := append([]byte(nil), F...)
 				d[k] = v
 				if !try(si, "subst", k, v, d, orig) {
@@ -355,6 +375,18 @@ func c18Faults(tb drv.TB, rec *drv.Rec, sub string, c c18Case) {
 			}
 		}
 	}
+}
+
+// inKey reports whether offset k lies in a mapping key (letters directly followed by ':').
+func inKey(F []byte, k int) bool {
+	isL := func(b byte) bool { return b >= 'a' && b <= 'z' || b >= '0' && b <= '9' || b == '_' }
+	if !isL(F[k]) {
+		return false
+	}
+	for k < len(F) && isL(F[k]) {
+		k++
+	}
+	return k < len(F) && F[k] == ':'
 }
 
 func lineFault(lines [][]byte, kind string, li int) []byte {
